@@ -159,6 +159,8 @@ func runC05(r *Run) {
 
 	r.rule("R3", "no stale-element exposure on truncation-reset slices (E4d)", func() { staleElementRule(r) })
 
+	r.rule("R5", "pooled Accept-parameter maps are cleared before reuse (shared with C09-R5)", func() { pooledParamMapRule(r) })
+
 	r.rule("R4", "route parameter values are read only for indices the current route declares (E3)", func() {
 		f := r.Fn("", "(*DefaultCtx).Params")
 		// every read of c.values[i] is inside the loop over route.Params (index = loop variable)
